@@ -58,6 +58,11 @@ def tshape(order, d):
 def proj_check(kind, case, rec):
     fem = import_felupe()
     mesh, info = gm.build(case["mesh"])
+    if (case["seed"] + case["dim"]) % 3 == 1:
+        # the same part in another length unit (a millimetre-sized part described in metres): projection does not depend on it
+        mesh = mesh.copy()
+        mesh.update(points=np.asarray(mesh.points) * 2e-3)
+        rec.label("length-unit=2e-3")
     region = region_for(fem, kind, mesh, info)
     rng = np.random.default_rng(case["seed"])
     d = case["dim"]
